@@ -27,10 +27,20 @@ RULE = ('random histories (1..12 ops) of element / row-view / row / row-slice / 
 ASSUMPTIONS = [
     'numpy assignment/casting/broadcasting semantics on 1-d rows are the reference for the list-of-rows oracle',
     'Lean elements are exact rationals: generated values are small ints / dyadic floats so that float arithmetic is exact',
-    'which repair variant of ra.py is staged is determined by four behavioural probes (cfg flags of the Lean model)',
+    'the staged ra.py is held to the fully repaired variant of the Lean model (Cfg.current = all four repairs); '
+    'four behavioural probes must detect every repair, a probe that does not is reported as a violation',
     'copy=False construction is documented aliasing and is excluded',
 ]
 TRUSTED_EXTRA = ['Python list-of-rows oracle in harness/props/c06.py (Spec class); compared with Lean specStep on every step']
+
+# source functions mirrored by lean/Model/RaggedW.lean
+MIRRORS = [('enspara/ra/ra.py', [
+    'where', '_convert_from_1d', '_handle_negative_indices', '_convert_from_2d', '_slice_to_list',
+    'partition_list', '_row_views', '_is_iterable', '_ensure_ragged_data', '_get_iis_from_slices',
+    '_get_iis_from_list', 'RaggedArray.__init__', 'RaggedArray.__setitem__', 'RaggedArray.__getitem__',
+    'RaggedArray.__invert__', 'RaggedArray.map_operator', 'RaggedArray.append', 'RaggedArray.starts',
+    'RaggedArray.__len__', 'RaggedArray.all', 'RaggedArray.any', 'RaggedArray.max', 'RaggedArray.min',
+    'RaggedArray.flatten', 'RaggedArray.size', 'RaggedArray.shape', 'RaggedArray.dtype'])]
 
 DT = {'int': np.int64, 'float': np.float64, 'bool': np.bool_}
 KIND = {'i': 'int', 'f': 'float', 'b': 'bool', 'u': 'int'}
@@ -540,7 +550,31 @@ def detect_cfg():
             'append': ok(p_append)}
 
 
-# ================================================================== known-defect input classes
+REPAIRS = {
+    'reads': 'read-side index helpers (CPython slice semantics, empty selections, all-false masks) - C05-ra-reads',
+    'rowviews': 'row assignment on equal-length arrays works on one view per row - C06-setitem-row-views',
+    'arrayviews': '_array is never a 2-d object copy (row views write through to _data) - C06-array-row-views',
+    'append': 'append() of one flat row - C06-append-flat-row',
+}
+CFG_CURRENT = {'reads': True, 'rowviews': True, 'arrayviews': True, 'append': True}
+
+
+def enforce_variant(ctx):
+    """/repo HEAD carries all four repairs: a probe that does not see one is a violation; the
+    Lean model is always driven in its fully repaired variant"""
+    seen = detect_cfg()
+    ctx.note('variant_probes', seen)
+    for k_, ok_ in seen.items():
+        ctx.tag('probe:%s=%s' % (k_, ok_))
+        ctx.case({'probe': k_}, nontrivial=True, tags=['probe'])
+        if not ok_:
+            ctx.violation('repair no longer in effect: %s' % REPAIRS[k_], {'probe': k_}, key=None)
+    return dict(CFG_CURRENT)
+
+
+# ================================================================== input classes of the repaired defects
+# (no open finding is left for C06: `classify` only names the class in the evidence tags; a deviation
+#  in any of these classes is a plain VIOLATION because no key is open in known_findings.d/C06.json)
 def _slice_feats(s, n, axis):
     a, b, c = s
     f = []
@@ -566,6 +600,13 @@ def classify(op, spec):
     Ls = [len(r) for r in spec.rows]
     if k == 'setMask' and not any(any(m) for m in op['mask']):
         return 'setmask-all-false'
+    if k == 'iopAt':
+        try:
+            if not spec._row_sel(op['r']):
+                # a[r, c] op= k reads back a RaggedArray without rows; `value[0]` in __setitem__
+                return 'iopat-no-row-selected'
+        except SpecError:
+            pass
     if k in ('set2d', 'iopAt'):
         feats = []
         if 'slice' in op['r']:
@@ -1056,9 +1097,10 @@ MODEL_KEYS = ['lengths', 'starts', 'len', 'rows', '_array', 'flat', '_data', 'el
 def judge(ctx, st, steps, resp, cfg, tags=()):
     """classification of every step of one history (after the driver answered)"""
     msteps = [x for x in (resp['ok']['steps'] if resp and 'ok' in resp else []) if 'resync' not in x]
+    model_lost = False      # the model's state left the real one earlier in this history (no re-sync yet)
     for t, S in enumerate(steps):
         op = S.op
-        M = msteps[t] if t < len(msteps) else None
+        M = msteps[t] if t < len(msteps) and not model_lost else None
         replay = {'init': st, 'ops': [s.op for s in steps[:t + 1]]}
         single = {'init': {'rows': jsonable(crows(S.spec_before.rows)), 'dtype': S.spec_before.kind,
                            'ctor': S.ctor_before if S.ctor_before in ('nested', 'lists', 'flat', 'flat-np') else 'nested'},
@@ -1102,8 +1144,12 @@ def judge(ctx, st, steps, resp, cfg, tags=()):
             what = describe(S)
             ctx.violation(what, minimal(single, replay, what), key=key)
             if key:
-                ctx.tag('known:' + key)
-        elif model_agrees is False:
+                ctx.tag('class:' + key)
+        if model_agrees is False:
+            model_lost = True
+        if S.dev:
+            model_lost = False      # model and real object are both rebuilt from the oracle's rows
+        if (not S.dev) and model_agrees is False:
             ctx.disagreement('Ens.RaggedW.step and RaggedArray differ on %s (cfg %s)' % (op['k'], cfg),
                              dict(replay, model=jsonable(M['model'] if 'err' in M['model'] else 'state'),
                                   real_err=S.rerr))
@@ -1311,10 +1357,7 @@ def aliasing_probe(ctx, case):
 
 # ================================================================== entry points
 def run(ctx):
-    cfg = detect_cfg()
-    ctx.note('variant_detected', cfg)
-    for k_, v_ in cfg.items():
-        ctx.tag('cfg:%s=%s' % (k_, v_))
+    cfg = enforce_variant(ctx)
     rng = ctx.rng
     # 1. exhaustive small scope of single writes
     batch = []
@@ -1342,7 +1385,10 @@ def run(ctx):
 
 
 def replay(ctx, case):
-    cfg = detect_cfg()
+    cfg = dict(CFG_CURRENT)
+    if 'probe' in case:
+        enforce_variant(ctx)
+        return
     if 'alias' in case:
         aliasing_probe(ctx, case)
         return
